@@ -83,4 +83,179 @@ theorem proposed_block_attaches (s : NodePool.State) (hb : Header) (cb : Ledger.
   | none => rw [hq] at h1; cases h1
   | some v => rfl
 
+/-! ### (3) the proposed block is accepted and becomes the best block -/
+
+theorem calcReorg_child (n : Node.State) (k : Nat) (nb ob : Header) (hne : (nb.id == ob.id) = false)
+    (hh : nb.height = ob.height + 1) (hp : n.header nb.parent = some ob) :
+    n.calcReorg (k + 2) nb ob [] [] = some ([nb], []) := by
+  have hle : ob.height ≤ nb.height := by omega
+  have hnle : ¬ nb.height ≤ ob.height := by omega
+  have hbeq : (ob.id == ob.id) = true := by simp
+  rw [Node.State.calcReorg]
+  simp only [hne, Bool.false_eq_true, if_false, ge_iff_le, hle, hnle, if_true, hp]
+  rw [Node.State.calcReorg]
+  simp only [hbeq, if_true]
+
+theorem step_res (s : NodePool.State) (f : NodeLedger.State → NodeLedger.State × Res) : (s.step f).2 = (f s.base).2 := rfl
+
+/-- the chain + ledger layer accepts the block -/
+theorem base_accepts (s : NodePool.State) (b : Header) (cb : Ledger.Tx) (nb ob : Header)
+    (hcb : cb.ins = []) (hfresh : ∀ o ∈ cb.outs, o.id ∉ (proposedTxs s).flatMap (·.ins))
+    (htxs : s.base.txsOf b.id = cb :: proposedTxs s)
+    (hvalid : s.base.validBlock b = true)
+    (hok : (s.base.node.processBlock b).2 = .ok) (hbest : (s.base.node.processBlock b).1.best = b.id)
+    (hnew : b.id ≠ s.base.node.best)
+    (hnb : (s.base.node.processBlock b).1.header b.id = some nb)
+    (hob : (s.base.node.processBlock b).1.header s.base.node.best = some ob)
+    (hpar : nb.parent = s.base.node.best) (hid : nb.id = b.id) (hobid : ob.id = s.base.node.best)
+    (hheight : nb.height = ob.height + 1) (hprop : nb.height = proposeHeight s) :
+    (s.base.processBlock b).2 = .ok ∧ (s.base.processBlock b).1.node.best = b.id := by
+  have hattach : (s.base.ledgerReorg [nb] []).isSome = true :=
+    proposed_block_attaches s nb cb hcb hfresh (hid ▸ htxs) hprop
+  unfold NodeLedger.State.processBlock
+  simp only [hvalid, Bool.not_true, Bool.and_false, Bool.false_eq_true, if_false]
+  unfold NodeLedger.State.settle
+  have hne : ((s.base.node.processBlock b).1.best == s.base.node.best) = false := by
+    rw [hbest]; simpa using hnew
+  simp only [hne, Bool.false_eq_true, if_false]
+  rw [hbest, hnb, hob]
+  simp only
+  obtain ⟨k, hk⟩ : ∃ k, 2 * (s.base.node.processBlock b).1.fuel = k + 2 :=
+    ⟨2 * (s.base.node.processBlock b).1.fuel - 2, by unfold Node.State.fuel; omega⟩
+  have hidne : (nb.id == ob.id) = false := by rw [hid, hobid]; simpa using hnew
+  rw [hk, calcReorg_child _ k nb ob hidne hheight (hpar ▸ hob)]
+  simp only
+  cases hl : s.base.ledgerReorg [nb] [] with
+  | none => rw [hl] at hattach; cases hattach
+  | some uc =>
+    obtain ⟨u, c⟩ := uc
+    simp only
+    exact ⟨hok, hbest⟩
+
+/-- **C38 (3).** After the proposer has run (`s.propose.2`: refused transactions removed),
+    `processBlock` of the block it built — coinbase `cb` followed by the included transactions,
+    at height best+1 on the best block — answers `ok` and the block is the new best block.
+    Hypotheses, all about the layers this property does not own:
+    * `hvalid`: `ValidateBlock` passes — the header part (`validBlock_of_slot`: the timestamp is
+      in the window and in a slot of the validator that signed; this is where "the block's slot
+      belongs to the local validator" enters) and the context-free flag (coinbase amounts:
+      `proposer_coinbase_passes`; transaction validity, gas and merkle root are assumed);
+    * `hok`, `hbest`: Casper's `ApplyBlock` accepts the block and `tryReorganize` selects it —
+      the fork choice's winner after the block is stored must be the block itself.  This fails
+      exactly when the current winner is not the best block the proposer built on (open finding
+      F32, C13:valid-best-not-selected: a stored block with an unspendable input stays the fork
+      choice's winner, the best block lags behind, and every `ProcessBlock` returns the
+      reorganisation error);
+    * `hnb` … `hprop`: the block is stored under its id as a child of the old best block. -/
+theorem proposed_block_valid (s : NodePool.State) (b : Header) (cb : Ledger.Tx) (nb ob : Header)
+    (hcb : cb.ins = []) (hfresh : ∀ o ∈ cb.outs, o.id ∉ (proposedTxs s).flatMap (·.ins))
+    (htxs : s.base.txsOf b.id = cb :: proposedTxs s)
+    (hvalid : s.base.validBlock b = true)
+    (hok : (s.base.node.processBlock b).2 = .ok) (hbest : (s.base.node.processBlock b).1.best = b.id)
+    (hnew : b.id ≠ s.base.node.best)
+    (hnb : (s.base.node.processBlock b).1.header b.id = some nb)
+    (hob : (s.base.node.processBlock b).1.header s.base.node.best = some ob)
+    (hpar : nb.parent = s.base.node.best) (hid : nb.id = b.id) (hobid : ob.id = s.base.node.best)
+    (hheight : nb.height = ob.height + 1) (hprop : nb.height = proposeHeight s) :
+    (s.propose.2.processBlock b).2 = .ok ∧ (s.propose.2.processBlock b).1.base.node.best = b.id := by
+  have h := base_accepts s b cb nb ob hcb hfresh htxs hvalid hok hbest hnew hnb hob hpar hid hobid hheight hprop
+  unfold NodePool.State.processBlock
+  rw [step_res, BytomModel.Lemmas.NodePoolInv.step_base, BytomModel.Lemmas.NodePoolInv.propose_base]
+  exact h
+
+/-! #### the header part of `ValidateBlock` for a block in the signer's slot -/
+
+/-- timestamp of the parent block (0 when no meta data is recorded) -/
+def parentTs (s : NodeLedger.State) (p : Header) : Nat := match s.metaOf p.id with | some pm => pm.ts | none => 0
+
+/-- the validator order `GetValidator(timestamp)` schedules for the block's timestamp: slots of
+    `interval` ms, starting one interval after the previous checkpoint's timestamp, round robin -/
+def slotOrder (s : NodeLedger.State) (b : Header) (ts : Nat) : Nat :=
+  let ckTs := match s.node.prevCheckpointHash s.node.fuel b.parent with
+    | some ch => (match s.metaOf ch with | some cm => cm.ts | none => 0)
+    | none => 0
+  ((ts - (ckTs + s.interval)) / s.interval) % s.node.cfg.nVal
+
+/-- `ValidateBlock` passes for a block of the next height whose timestamp is at least one
+    interval after its parent's and not in the future, signed by the validator its timestamp's
+    slot belongs to, and whose context-free part (transactions, coinbase amounts, merkle root) is
+    in order -/
+theorem validBlock_of_slot (s : NodeLedger.State) (b p : Header) (m : Meta)
+    (hm : s.metaOf b.id = some m) (hp : s.node.header b.parent = some p)
+    (hh : b.height = p.height + 1) (hts : parentTs s p + s.interval ≤ m.ts) (hfut : m.future = false)
+    (hsig : m.signer = some (slotOrder s b m.ts)) (hbad : m.bad = false) : s.validBlock b = true := by
+  unfold NodeLedger.State.validBlock
+  simp only [hm, hp]
+  have h1 : (b.height != p.height + 1) = false := by simp [hh]
+  have h2 : ¬ m.ts < parentTs s p + s.interval := by omega
+  unfold parentTs at h2
+  unfold slotOrder at hsig
+  simp only [h1, Bool.false_eq_true, if_false, hfut, hsig, hbad, Bool.not_false]
+  unfold parentTs at hts
+  simp
+  exact ⟨hts, rfl⟩
+
+/-- the coinbase part of the context-free flag: the coinbase outputs `createCoinbaseTx` builds
+    pass `checkCoinbaseAmount`, for every reward table, also in the first block of an epoch
+    (C14 `proposer_matches_validator`, re-exported for the assembly) -/
+theorem proposer_coinbase_passes (p : BytomModel.Model.Checkpoint.Params)
+    (iter : BytomModel.Model.Checkpoint.KMap → BytomModel.Model.Checkpoint.KMap)
+    (hi : BytomModel.Props.C14.IsIter iter) (height : Nat) (script : BytomModel.Model.Checkpoint.Key)
+    (rewards : BytomModel.Model.Checkpoint.KMap) (he : p.epoch ≠ 0)
+    (hn : (BytomModel.Lemmas.Checkpoint.kkeys rewards).Nodup)
+    (hv : ∀ e ∈ rewards, e.2 ≠ 0 ∧ e.2 < BytomModel.Model.Checkpoint.u64)
+    (h1 : height = 1 → height % p.epoch = 1 → rewards = []) :
+    ∃ outs, BytomModel.Model.Checkpoint.createCoinbaseOutputs p iter height script rewards = some outs ∧
+      BytomModel.Model.Checkpoint.checkCoinbaseAmount p height true outs rewards = .ok () :=
+  BytomModel.Props.C14.proposer_matches_validator p iter hi height script rewards he hn hv h1
+
+/-! #### non-vacuity: a pool with a conflict, a chain and a transaction whose refusal leaves a mark -/
+
+open BytomModel.Lemmas.NodePoolInv (Ev run)
+
+def exG : Header := { id := 0, parent := 4294967295, height := 0, slot := 0, rank := 0, sup := [] }
+def exB1 : Header := { id := 1, parent := 0, height := 1, slot := 1, rank := 5, sup := [] }
+def exCb0 : Ledger.Tx := { id := 1000, ins := [], outs := [{ id := 100, kind := .normal, amount := 50 }, { id := 101, kind := .normal, amount := 50 }] }
+def exCb1 : Ledger.Tx := { id := 1001, ins := [], outs := [{ id := 110, kind := .normal, amount := 0 }] }
+def exTA : Ledger.Tx := { id := 10, ins := [100], outs := [{ id := 200, kind := .normal, amount := 45 }] }
+def exTB : Ledger.Tx := { id := 11, ins := [200], outs := [{ id := 201, kind := .normal, amount := 40 }] }
+def exTC : Ledger.Tx := { id := 12, ins := [100], outs := [{ id := 210, kind := .normal, amount := 44 }] }
+def exTD : Ledger.Tx := { id := 13, ins := [101, 100], outs := [{ id := 220, kind := .normal, amount := 90 }] }
+def exTE : Ledger.Tx := { id := 14, ins := [101], outs := [{ id := 230, kind := .normal, amount := 45 }] }
+
+def exS0 : NodePool.State :=
+  { base := NodeLedger.State.init { epoch := 4, nVal := 1, me := none } { coinbasePending := 0 } exG [exCb0],
+    pool := TxPool.Pool.empty, txdefs := [], now := 0 }
+
+/-- tA, its conflict tC, its child tB, tD (spends o101 then the already spent o100: refused, the
+    mark on o101 stays) and tE (spends o101: refused because of that mark) are pooled; the block
+    b1 = coinbase, tA, tB is named -/
+def exS : NodePool.State :=
+  run exS0 [.submit exTA, .submit exTC, .submit exTB, .submit exTD, .submit exTE, .define exB1 [exCb1, exTA, exTB] none]
+
+example : BytomModel.Lemmas.NodePoolInv.poolIds exS = [10, 12, 11, 13, 14] := by decide
+example : exS.propose.1 = [10, 11] := by decide
+example : BytomModel.Lemmas.NodePoolInv.poolIds exS.propose.2 = [10, 11] := by decide
+
+/-- all hypotheses of `proposed_block_valid` (and so of `propose_applies`,
+    `proposed_block_attaches`) hold for `exS` and `exB1` -/
+example : (exS.propose.2.processBlock exB1).2 = .ok ∧ (exS.propose.2.processBlock exB1).1.base.node.best = exB1.id :=
+  proposed_block_valid exS exB1 exCb1 exB1 exG rfl (by decide) (by decide) (by decide) (by decide) (by decide)
+    (by decide) rfl rfl rfl rfl rfl rfl (by decide)
+
+/-- `validBlock_of_slot` on a state with recorded meta data: validator 1 of 2 signs in its slot -/
+def exM : NodeLedger.State :=
+  { exS0.base with node := { exS0.base.node with cfg := { epoch := 4, nVal := 2, me := some 1 } },
+                   interval := 1000,
+                   metas := [(1, { ts := 4000, signer := some 1, future := false, bad := false }),
+                             (0, { ts := 0, signer := none, future := false, bad := false })] }
+
+example : exM.validBlock exB1 = true :=
+  validBlock_of_slot exM exB1 exG { ts := 4000, signer := some 1, future := false, bad := false }
+    rfl rfl rfl (by decide) rfl (by decide) rfl
+
+example : ∃ outs, BytomModel.Model.Checkpoint.createCoinbaseOutputs ⟨6000, 100, 3, 10, []⟩ id 7 [1] [([1], 5), ([2], 9)] = some outs ∧
+    BytomModel.Model.Checkpoint.checkCoinbaseAmount ⟨6000, 100, 3, 10, []⟩ 7 true outs [([1], 5), ([2], 9)] = .ok () :=
+  proposer_coinbase_passes _ id (fun m => List.Perm.refl m) 7 [1] _ (by decide) (by decide) (by decide) (by decide)
+
 end BytomModel.Props.C38
